@@ -872,3 +872,59 @@ def run_C15(ctx):
         "2..16 writer threads marking distinct pages of one log byte through the daemon's guest memory, every round checked for a lost bit "
         "(probabilistic: a non-atomic read-modify-write is caught only when two updates actually collide)",
         ASSUME_COMMON + ["the exploration level applies to the race clause: detection of a non-atomic bitmap update is probabilistic"], viol)
+
+
+# ---------------------------------------------------------------------------------------------
+# C12: concurrent ring life-cycle (hold-point schedules)
+def run_C12(ctx):
+    import glob
+    kmax = 1 if ctx.tier == "quick" else 2
+    cases = []
+    preds = dict(p1=0, lost=0, died=0, n=0)
+    for cfgp in sorted(glob.glob(os.path.join(ROOT, "spec", "mc", "MC_VringConc_*.cfg"))):
+        name = os.path.basename(cfgp)[:-4]
+        if name.endswith("_props"):
+            continue
+        k = int(name.rsplit("_", 1)[1])
+        if k > kmax:
+            continue
+        # the model itself must satisfy "no lost kick" and "worker survives" (P1 is refuted on it: known finding)
+        ctx.tlc_mc("MC_VringConc", name + "_props", workers=4)
+        scheds = ctx.tlc_mc("MC_VringConc", name, workers=4)
+        for i, sc in enumerate(scheds):
+            preds["n"] += 1
+            for f in ("p1", "lost", "died"):
+                preds[f] += 1 if sc[f] else 0
+            cases.append(dict(conc=True, nq=1, script=sc["script"], sched=sc["sched"], vring="rwlock" if i % 2 else "mutex",
+                              predicted=dict(p1=sc["p1"], lost=sc["lost"], died=sc["died"])))
+    ctx.notes.append(f"model (VringConc.tla, implementation-shaped) predictions over all complete schedules: {preds}")
+    if ctx.tier == "quick" and len(cases) > 2500:
+        rnd = random.Random(ctx.seed)
+        flagged = [c for c in cases if any(c["predicted"].values())]
+        rest = [c for c in cases if not any(c["predicted"].values())]
+        cases = flagged[:1200] + rnd.sample(rest, min(len(rest), 1300))
+    cases = replay_or(ctx, "daemon", cases)
+    tr = ctx.harness("daemon", cases, shards=12)
+    viol = ctx.tlc_tv("TV_VringConc", tr, "daemon", chunk_events=8000)
+    cur = None
+    for line in open(tr):
+        e = json.loads(line)
+        if e["ev"] == "reset":
+            cur = [tuple(e["script"]), []]
+        elif e["ev"] in ("kick", "begin", "reply", "dispatch") or (e["ev"] == "hook" and e["p"] in ("w.after_wait", "w.after_read", "w.before_dispatch", "c.after_state", "c.after_ctl")):
+            cur[1].append(e["ev"] + ":" + (e.get("op") or e.get("p") or ""))
+        elif e["ev"] == "end":
+            ctx.evaluations += 1
+            ctx.distinct.add((cur[0], tuple(cur[1])))
+    ctx.sample(tr, 1, skip=0)
+    ctx.exhaustive = True
+    return ctx.finish("model_checking",
+        "VringConc.tla models one ring with the worker thread (epoll wake-up, read_kick, enabled check, dispatch), the daemon thread "
+        "(state change, epoll add/del, descriptor drop, reply) and guest kicks as separately enabled steps; TLC explores all "
+        "interleavings for the scenarios disable/enable, stop/restart, reset/enable, disable, stop, enable/disable/enable with 1 (quick) "
+        "or 2 (thorough) kicks and prints every complete schedule; each schedule is driven through the instrumented hold points of a "
+        "real daemon (every step has a positive completion signal or is skipped), and TLC validates the recorded events against the two "
+        "clauses (no handler entry after a disabling reply; no kick left unprocessed on an active ring; worker alive). distinct = distinct "
+        "(script, observed event order)",
+        ASSUME_COMMON + ["a dispatch that happens before the reply of the disabling message is sent counts as service of the kick (protocol-level activity)"],
+        viol)
